@@ -2,7 +2,7 @@
 from fractions import Fraction
 
 from .. import terms as T
-from ..lib import summarise, heap_writes, V, A, normal, cond_str, no_inline, writers_of_attr, all_terms_of
+from ..lib import at_construction, summarise, heap_writes, V, A, normal, cond_str, no_inline, writers_of_attr, all_terms_of
 from ..symex import Valuation, default_policy
 from ..terms import fmt, ZERO, num
 from . import c09
@@ -144,7 +144,7 @@ def s2_s3(ctx):
     for fld in ('signal', 'universe'):
         ws = writers_of_attr(ctx.M, fld, owner='SingleSignalAlphaModel')
         ws = [w for w in ws if w.fn.cls is not None and w.fn.cls.name == 'SingleSignalAlphaModel']
-        ctx.require(all(w.fn.name == '__init__' for w in ws), 'C19.S2', 'SingleSignalAlphaModel.%s is set only by the constructor' % fld, ws[0].where if ws else None,
+        ctx.require(all(at_construction(ctx.M, w, fld) for w in ws), 'C19.S2', 'SingleSignalAlphaModel.%s is set only by the constructor' % fld, ws[0].where if ws else None,
                     key='C19.S2|field|%s' % fld)
     ctx.sub(c09.s1_asset_set, 'C19.S2')
     # ---- S3 optimisers
